@@ -258,6 +258,15 @@ func c12judge(c c12case, choose verifseam.Chooser) (kind, detail string) {
 		if ierr == nil {
 			return "unknown-token-accepted", fmt.Sprintf("token(s) naming dimension(s) %q the permutation does not have: call returned nil", unknown)
 		}
+		// the failure is not "used up": the same call on the same step fails again
+		var again error
+		if pan := report.Catch(func() { again = st.InterpolateMatrixPermutation(mp) }); pan != "" {
+			return "panic", "second call after a failed one: " + pan
+		}
+		if again == nil {
+			aj, _ := json.Marshal(st)
+			return "unknown-token-accepted-on-retry", fmt.Sprintf("the call failed (%v), the same call repeated returned nil; step now %s", ierr, aj)
+		}
 		return "", ""
 	}
 	if ierr != nil {
